@@ -36,6 +36,12 @@ extern int (*env_alloc_hook)(long k);   /* return 1 to fail this allocation */
 enum { ENV_OP_GCM_INIT = 1, ENV_OP_GCM_READY, ENV_OP_GCM_ENC, ENV_OP_CBC_INIT, ENV_OP_CBC_ENC, ENV_OP_CHACHA_INIT, ENV_OP_CHACHA_ENC };
 extern void (*env_crypto_hook)(int op, const void *ctx, const unsigned char *a, int alen, const unsigned char *b, unsigned blen);
 
+/* key-log seam (env.c): most recent psHkdfExpandLabel derivations */
+#define ENV_KEYLOG_N 128
+typedef struct { char label[24]; unsigned char out[64]; int outlen; uint64_t secret_tag; int seq; } env_keylog_t;
+extern env_keylog_t env_keylog[ENV_KEYLOG_N];
+extern int env_keylog_n;
+
 /* mutex seam (env.c) */
 extern void (*env_lock_hook)(void *mutex);
 extern void (*env_unlock_hook)(void *mutex);
